@@ -12,8 +12,10 @@
 package main
 
 import (
+	"encoding/json"
 	"fmt"
 	"os"
+	"path/filepath"
 	"reflect"
 	"regexp"
 	"runtime"
@@ -493,6 +495,19 @@ func (c *Ctx) c03Indicator(typeKey string, sp Spec, inputs [][]float64, v c03Var
 	c.countFlow("indicator", v, closed, clean)
 	c.AddCase(term, CaseInfo{Subject: typeKey, Desc: fmt.Sprintf("%s input lengths %v, %+v: every output closed=%v, no goroutine left=%v", cfg, lens, v, closed, clean),
 		Input: c03FlowInput{Type: typeKey, Spec: sp, Cfg: cfg, Variant: v, Inputs: ins, Closed: closed, Clean: clean}}, len(inputs) > 0 && len(inputs[0]) > 0)
+	// the same run against the network the translator generated for this Compute (when it has one)
+	if haveNet(t.Coq + "_Compute") {
+		var outLens []int
+		if closed {
+			for _, o := range outs {
+				outLens = append(outLens, len(o))
+			}
+		}
+		c.Count("generated-network runs")
+		c.AddCase(fmt.Sprintf("KShape (let c_ := %s in %s_Compute_desc c_ %s %d%%nat %s) %d%%nat %s %s %s", cfg, t.Coq, coqOuts(t, "c_"), v.InCap, coqNats(lens), 150+40*(nmax+5), coqBool(closed), coqBool(clean), coqNats(outLens)),
+			CaseInfo{Subject: typeKey, Desc: fmt.Sprintf("generated network of %s, input lengths %v, input capacity %d: every output closed=%v, no goroutine left=%v, output lengths %v", cfg, lens, v.InCap, closed, clean, outLens),
+				Input: c03FlowInput{Type: typeKey, Spec: sp, Cfg: cfg, Variant: v, Inputs: ins, Closed: closed, Clean: clean}}, nmax > 0)
+	}
 }
 
 func (c *Ctx) c03Strategy(typeKey string, sp Spec, b Bars, v c03Variant) {
@@ -521,6 +536,38 @@ func (c *Ctx) c03Strategy(typeKey string, sp Spec, b Bars, v c03Variant) {
 	c.countFlow("strategy", v, closed, clean)
 	c.AddCase(term, CaseInfo{Subject: typeKey, Desc: fmt.Sprintf("%s n=%d, %+v: every output closed=%v, no goroutine left=%v", cfg, len(b.Close), v, closed, clean),
 		Input: c03FlowInput{Type: typeKey, Spec: sp, Cfg: cfg, Variant: v, Bars: barsJSON(b), Closed: closed, Clean: clean}}, len(b.Close) > 0)
+	if haveNet(t.Coq + "_Compute") {
+		var outLens []int
+		if closed {
+			outLens = []int{len(acts)}
+		}
+		n := len(b.Close)
+		c.Count("generated-network runs")
+		c.AddCase(fmt.Sprintf("KShape (let c_ := %s in %s_Compute_desc c_ %s %d%%nat %s) %d%%nat %s %s %s", cfg, t.Coq, atF(t.Coq+"_Compute", "c_ (EIn 0)"), v.InCap, coqNats([]int{n}), 150+40*(n+5), coqBool(closed), coqBool(clean), coqNats(outLens)),
+			CaseInfo{Subject: typeKey, Desc: fmt.Sprintf("generated network of %s, n=%d, input capacity %d: output closed=%v, no goroutine left=%v, lengths %v", cfg, n, v.InCap, closed, clean, outLens),
+				Input: c03FlowInput{Type: typeKey, Spec: sp, Cfg: cfg, Variant: v, Bars: barsJSON(b), Closed: closed, Clean: clean}}, n > 0)
+	}
+}
+
+// ---- the networks generated by the translator (coq/Gen/All.v, *_net) ---------------------------------------------
+
+var netNames map[string]bool
+
+// haveNet: did the translator produce a network for this function? (work/translator_report.json of this run)
+func haveNet(coqFn string) bool {
+	if netNames == nil {
+		netNames = map[string]bool{}
+		var rep struct {
+			Networks []string `json:"networks"`
+		}
+		if data, err := os.ReadFile(filepath.Join(os.Getenv("VERIF_ROOT"), "work", "translator_report.json")); err == nil {
+			_ = json.Unmarshal(data, &rep)
+		}
+		for _, n := range rep.Networks {
+			netNames[n] = true
+		}
+	}
+	return netNames[coqFn]
 }
 
 func (c *Ctx) countFlow(kind string, v c03Variant, closed, clean bool) {
@@ -625,7 +672,7 @@ func (c *Ctx) c03Shapes(n int) {
 }
 
 func runC03(c *Ctx) error {
-	c.header = "From Coq Require Import Floats ZArith List String.\nImport ListNotations.\nFrom Verif Require Import Base.Num Base.Stream Base.GenPrelude Gen.All Spec.Admissible Gen.AdmStrat Kahn.Kahn Kahn.Helpers Kahn.Patterns Run.FlowRun Run.ValRun Run.C03Run.\nOpen Scope float_scope.\n"
+	c.header = "From Coq Require Import Floats ZArith List String.\nImport ListNotations.\nFrom Verif Require Import Base.Num Base.Stream Base.GenPrelude Gen.All Spec.Admissible Gen.AdmStrat Kahn.Kahn Kahn.Helpers Kahn.NetPrelude Kahn.Patterns Run.FlowRun Run.ValRun Run.C03Run.\nOpen Scope float_scope.\n"
 	c.perFile = 150
 	c.Meta.Rule = "part 1: random pipelines (1-3 sources of 0..12 values with input capacity 0/1/3/16, then 2..8 helpers among Map, Buffered, Duplicate(2-3), Operate, Operate3, Skip, Shift, First, Head on open channel ends, a reader on every open end) " +
 		"built from the real helpers and run to quiescence (goroutine dump), against one run of the denoted Kahn network; " +
